@@ -1390,6 +1390,34 @@ func (e *CoreExtension) filterTitle(value interface{}, args ...interface{}) (int
 	return strings.Join(words, " "), nil
 }
 
+// sortedMapKeys returns the keys of a map in an order that depends on the keys
+// only (Go randomises map iteration): numbers numerically, everything else by
+// its printed form
+func sortedMapKeys(rv reflect.Value) []reflect.Value {
+	keys := rv.MapKeys()
+	sort.Slice(keys, func(i, j int) bool {
+		a, b := keys[i], keys[j]
+		for a.Kind() == reflect.Interface && !a.IsNil() {
+			a = a.Elem()
+		}
+		for b.Kind() == reflect.Interface && !b.IsNil() {
+			b = b.Elem()
+		}
+		switch {
+		case a.CanInt() && b.CanInt():
+			return a.Int() < b.Int()
+		case a.CanUint() && b.CanUint():
+			return a.Uint() < b.Uint()
+		case a.CanFloat() && b.CanFloat():
+			return a.Float() < b.Float()
+		case a.Kind() == reflect.String && b.Kind() == reflect.String:
+			return a.String() < b.String()
+		}
+		return fmt.Sprint(a) < fmt.Sprint(b)
+	})
+	return keys
+}
+
 // firstChar returns the first character (not byte) of s
 func firstChar(s string) string {
 	_, size := utf8.DecodeRuneInString(s)
@@ -1415,11 +1443,6 @@ func (e *CoreExtension) filterFirst(value interface{}, args ...interface{}) (int
 			return v[0], nil
 		}
 		return nil, nil
-	case map[string]interface{}:
-		for _, val := range v {
-			return val, nil // Return first value found
-		}
-		return nil, nil
 	}
 
 	// Try reflection for other types
@@ -1433,8 +1456,9 @@ func (e *CoreExtension) filterFirst(value interface{}, args ...interface{}) (int
 		}
 		return nil, nil
 	case reflect.Map:
-		for _, key := range rv.MapKeys() {
-			return rv.MapIndex(key).Interface(), nil // Return first value found
+		// The first entry of a map is the one with the smallest key
+		for _, key := range sortedMapKeys(rv) {
+			return rv.MapIndex(key).Interface(), nil
 		}
 		return nil, nil
 	}
@@ -1716,7 +1740,7 @@ func (e *CoreExtension) filterKeys(value interface{}, args ...interface{}) (inte
 	if rv.Kind() == reflect.Map {
 		// For maps, return the keys as a slice of the same type as the keys
 		keys := make([]interface{}, 0, rv.Len())
-		for _, key := range rv.MapKeys() {
+		for _, key := range sortedMapKeys(rv) {
 			if key.CanInterface() {
 				keys = append(keys, key.Interface())
 			}
